@@ -7,9 +7,14 @@
     `T <x> <coeff> <factors> <coeff> <factors>` unyt_quantity(x, u).to_value(target)
     `I <x> <coeff> <factors> <coeff> <factors>` t = unyt_array(x, u); t.convert_to_units(target)
   reply: `ok`, one field per op (`<bits>` or `err:<Class>`), then the final buffer value.
+
+  `c03.routes <x bits> <coeff> <factors> <coeff> <factors>`: `x [A]` to `B` on the copying route
+  (`in_units`, EM branch included) and on the in-place route (`convert_to_units`);
+  reply `ok <in_units> <convert_to_units>`.
 -/
 import UnytModel.DriverBase
 import UnytModel.ConvHistory
+import UnytModel.ConvRoutes
 
 namespace Unyt
 namespace C03Wire
@@ -66,6 +71,17 @@ def opsC03 : Handler := fun st fields =>
       | some (ops, t2) =>
         let r := runHist st.pre t2 (x, u) ops
         some (st, "ok\t" ++ "\t".intercalate (r.2.map outStr) ++ s!"\t{bitsStr r.1.1}")
+      | none => some (st, "err\tparse")
+    | _, _ => some (st, "err\tparse")
+  | ["c03.routes", x, cA, fA, cB, fB] =>
+    match fb x, unitOf st.pre (st.luts[0]!) cA fA with
+    | some x, some (uA, t1) =>
+      match unitOf st.pre t1 cB fB with
+      | some (uB, t2) =>
+        let T : EmTable Float := defaultEm Float
+        let a := (inUnitsEm st.pre t2 T uA x uB).map (·.1)
+        let b := (convertToUnitsEm st.pre t2 T (x, uA) uB).map (·.1)
+        some (st, s!"ok\t{outStr a}\t{outStr b}")
       | none => some (st, "err\tparse")
     | _, _ => some (st, "err\tparse")
   | _ => none
